@@ -4,6 +4,7 @@ CONSTANTS
   Grams = {1, 2}
   Audios = {"a1", "a2"}
   Deviations <- NoDev
+  Throttling <- Thr
   MaxOps = 7
 ACTION_CONSTRAINT DumpEdge
 VIEW TourView
